@@ -49,6 +49,6 @@ def cases(tier, seed):
         ps = pairs(rnd, tier == "thorough")
         for i, (a, b) in enumerate(ps):
             ids = [(None, None, None), (b"client", b"server", b"ctx")][i % 2]
-            out.append(dict(script=wrong_pw, suite=s, seed=seed * 100000 + si * 1000 + i, mode="pattern+err",
+            out.append(dict(cross=["login_finish", "srv_login_finish", "srv_reg_start"], cross_limit=60, script=wrong_pw, suite=s, seed=seed * 100000 + si * 1000 + i, mode="pattern+err",
                             params=dict(pw=a, pw2=b, idu=ids[0], ids=ids[1], context=ids[2])))
     return out
